@@ -59,13 +59,30 @@ func (s *SymSigner) Sign(r io.Reader, digest []byte, opts crypto.SignerOpts) ([]
 // SEQUENCE with one symbolic byte.  Harnesses read cert.Raw / cert.RawIssuer / cert.SerialNumber.
 func Cert(signer crypto.Signer, serial []byte) *x509.Certificate {
 	s := signer.(*SymSigner)
-	tmpl := &x509.Certificate{
-		SerialNumber: new(big.Int).SetBytes(serial),
-		Subject:      pkix.Name{CommonName: "vsym " + s.Name},
-		NotBefore:    time.Unix(1600000000, 0),
-		NotAfter:     time.Unix(2500000000, 0),
-	}
-	der, err := x509.CreateCertificate(rand.Reader, tmpl, tmpl, &s.key.PublicKey, s.key)
+	return issue(s, new(big.Int).SetBytes(serial), pkix.Name{CommonName: "vsym " + s.Name})
+}
+
+var (
+	caOnce sync.Once
+	caKey  *rsa.PrivateKey
+	caCert *x509.Certificate
+)
+
+// issue creates a certificate for s's key issued by a fixed test CA (issuer and subject differ,
+// as for real signing certificates).
+func issue(s *SymSigner, serial *big.Int, subject pkix.Name) *x509.Certificate {
+	caOnce.Do(func() {
+		caKey = keyFor("vsym-ca")
+		tmpl := &x509.Certificate{SerialNumber: big.NewInt(1), Subject: pkix.Name{CommonName: "vsym CA"},
+			NotBefore: time.Unix(1600000000, 0), NotAfter: time.Unix(2500000000, 0), IsCA: true, BasicConstraintsValid: true, KeyUsage: x509.KeyUsageCertSign}
+		der, err := x509.CreateCertificate(rand.Reader, tmpl, tmpl, &caKey.PublicKey, caKey)
+		if err != nil {
+			panic(err)
+		}
+		caCert, _ = x509.ParseCertificate(der)
+	})
+	tmpl := &x509.Certificate{SerialNumber: serial, Subject: subject, NotBefore: time.Unix(1600000000, 0), NotAfter: time.Unix(2500000000, 0)}
+	der, err := x509.CreateCertificate(rand.Reader, tmpl, caCert, &s.key.PublicKey, caKey)
 	if err != nil {
 		panic(err)
 	}
@@ -82,15 +99,5 @@ func CertRawLen(n int) {}
 // CertSameID returns a certificate with the same issuer name and serial number as like, but for
 // the key of signer ("another key under the same issuer and serial").
 func CertSameID(signer crypto.Signer, like *x509.Certificate) *x509.Certificate {
-	s := signer.(*SymSigner)
-	tmpl := &x509.Certificate{SerialNumber: like.SerialNumber, Subject: like.Subject, NotBefore: like.NotBefore, NotAfter: like.NotAfter}
-	der, err := x509.CreateCertificate(rand.Reader, tmpl, tmpl, &s.key.PublicKey, s.key)
-	if err != nil {
-		panic(err)
-	}
-	c, err := x509.ParseCertificate(der)
-	if err != nil {
-		panic(err)
-	}
-	return c
+	return issue(signer.(*SymSigner), like.SerialNumber, pkix.Name{CommonName: "vsym other holder"})
 }
